@@ -55,6 +55,9 @@ def plan() -> dict:
 def run_bounded(prop: str, tier: str, seed: int, budget: float) -> dict:
     env = dict(os.environ)
     env["PYTHONPATH"] = VERIF + os.pathsep + env.get("PYTHONPATH", "")
+    if os.path.realpath(REPO) != "/repo":
+        # a scratch copy of the repository under test (development: seeded mutants)
+        env["PYTHONPATH"] = REPO + os.pathsep + env["PYTHONPATH"]
     env.setdefault("PYTHONHASHSEED", "0")
     env["PYTHONDONTWRITEBYTECODE"] = "1"
     with tempfile.TemporaryDirectory(prefix="verif-b-") as tmp:
